@@ -1,12 +1,12 @@
 CONSTANTS
   Users = {a, b}
-  MaxEp = 4
+  MaxEp = 3
   MaxOps = 7
   Amts = {1, 2}
   Mults = {2, 5}
   Rate = 1000
   FStart = 1
-  FEnd = 5
+  FEnd = 4
   MaxAmt = 4
   FixSync = TRUE
   FixWeights = TRUE
